@@ -174,6 +174,80 @@ def run(eng, run):
         run.ob("C19.own", f"{f.short}:borrow", not bad_nodes)
         n_inst += 1
     run.floor("C19.own instances", n_inst, 6)
+    check_all_attempted(eng, run, race, tc)
+
+
+PRESERVING = {"chain", "from_iterable", "zip_longest", "list", "tuple", "values", "items", "sorted", "reversed", "OrderedDict", "dict", "iter"}
+LOSSY = {"zip": "truncates to the shortest input", "islice": "takes a prefix", "set": "drops duplicates and order", "frozenset": "drops duplicates and order",
+         "filter": "drops elements", "takewhile": "stops at the first mismatch", "dropwhile": "drops a prefix", "compress": "drops elements", "random": "", "sample": "takes a sample"}
+
+
+def check_all_attempted(eng, run, race, tc):
+    """C19.all: every resolved address reaches a connection attempt - the list transformations applied to the
+    address list are element-preserving and the race loop starts an attempt for every element."""
+    from sa.analyses.base import RuleAnalysis
+    from sa.flow import ForIter, Interp as _I
+
+    db = eng.db
+    mod = race.module
+    # (a) helper functions applied to the address list in the race
+    helpers = []
+    for n in own_nodes(race.node):
+        if isinstance(n, ast.Assign) and any(is_name(t, "remote_addrinfo") for t in n.targets):
+            for c in ast.walk(n.value):
+                if isinstance(c, ast.Call) and isinstance(c.func, ast.Name) and c.func.id in mod.functions:
+                    helpers.append(mod.functions[c.func.id])
+    for h in helpers:
+        probs = []
+        for c in own_nodes(h.node):
+            if isinstance(c, ast.Call):
+                nm = c.func.attr if isinstance(c.func, ast.Attribute) else getattr(c.func, "id", "")
+                if nm in LOSSY and not (isinstance(c.func, ast.Attribute) and nm in ("set",)):
+                    probs.append((c, f"`{nm}()` {LOSSY[nm]}"))
+            if isinstance(c, ast.Subscript) and isinstance(c.slice, ast.Slice) and isinstance(c.ctx, ast.Load) and dotted(c.value) in {a.arg for a in h.params()}:
+                probs.append((c, "a slice of the address list drops elements"))
+        # per-element loops place the element exactly once on every path
+        param = h.params()[0].arg if h.params() else None
+        for lp in [x for x in own_nodes(h.node) if isinstance(x, ast.For) and dotted(x.iter) == param and isinstance(x.target, ast.Name)]:
+            elem = lp.target.id
+
+            class Place(RuleAnalysis):
+                tokens = ("Exception",)
+
+                def initial(self, f):
+                    return [0]
+
+                def may_raise(self, node, fact):
+                    return []
+
+                def transfer(self, node, fact):
+                    if isinstance(node, ast.Call) and isinstance(node.func, ast.Attribute) and node.func.attr in ("append", "insert", "appendleft", "add") and any(is_name(a, elem) for a in node.args):
+                        return [min(fact + 1, 2)]
+                    return [fact]
+
+            an = Place(eng)
+            it = _I(an, h)
+            out = it.exec_block(lp.body, {0: ()})
+            counts = set(out.normal) | set(out.cont)
+            if counts != {1} or out.brk or out.ret:
+                probs.append((lp, f"the loop places an address {sorted(counts)} times on some path / leaves early (every address must be placed exactly once)"))
+        for node, why in probs:
+            run.finding("C19.all", h, node if isinstance(node, ast.stmt) else h.node, f"{h.name}: {why}: a resolved address is never attempted although it may be the only reachable one")
+        run.ob("C19.all", f"{h.short}:element-preserving", not probs)
+    run.floor("C19.all address-list transformations", len(helpers), 2)
+    # (b) the race loop starts one attempt per address
+    loops = [x for x in own_nodes(race.node) if isinstance(x, ast.For) and is_name(x.iter, "remote_addrinfo")]
+    ok = len(loops) == 1
+    if ok:
+        lp = loops[0]
+        spawn = [c for c in ast.walk(lp) if isinstance(c, ast.Call) and isinstance(c.func, ast.Attribute) and c.func.attr == "start_soon" and any(is_name(a, tc.name) for a in c.args)
+                 and isinstance(lp.target, ast.Name) and any(is_name(a, lp.target.id) for a in c.args)]
+        early = [x for x in ast.walk(lp) if isinstance(x, (ast.Break, ast.Continue, ast.Return))]
+        first = lp.body[0] if lp.body else None
+        ok = len(spawn) == 1 and not early and not any(isinstance(x, ast.If) for x in lp.body)
+    if not ok:
+        run.finding("C19.all", race, loops[0] if loops else race.node, "the race loop no longer starts exactly one connection attempt for every resolved address")
+    run.ob("C19.all", f"{race.short}:one-attempt-per-address", ok)
 
 
 def _find_socket_var(eng, fn, acquire=_raw_socket):
@@ -265,6 +339,11 @@ MUTANTS = [
             why="caller cancelled after a winner was stored"),
     Variant("race-winner-handler-narrowed", _RACE, lambda fn: set_handler_type(fn, "BaseException", "Exception", 0), "C19.slot"),
     Variant("race-no-scope-cancel", _TC, lambda fn: delete_stmt(fn, stmt_is("connection_scope.cancel()")), "C19.one"),
+    Variant("interleave-zip-truncates", "lowlevel.api_async.backend._common.dns_resolver:_interleave_addrinfos",
+            lambda fn: __import__("sa.mutate", fromlist=["replace_expr"]).replace_expr(fn, "itertools.zip_longest(*addrinfos_lists)", "zip(*addrinfos_lists)"), "C19.all",
+            why="with 1 IPv6 + 3 IPv4 addresses only the first of each family is attempted"),
+    Variant("prioritize-drops-duplicates-of-family", "lowlevel.api_async.backend._common.dns_resolver:_prioritize_ipv6_over_ipv4",
+            lambda fn: __import__("sa.mutate", fromlist=["replace_stmt"]).replace_stmt(fn, stmt_is("reordered.append(addr)"), "pass"), "C19.all"),
     Variant("listeners-pop-all-early", _LST,
             lambda fn: (delete_stmt(fn, stmt_is("socket_exit_stack.pop_all()")), insert_before_loop(fn)), "C19.own",
             why="sockets released from the stack before the error check: bind errors leak all sockets"),
